@@ -252,16 +252,17 @@ type World struct {
 	outSeq     int
 
 	// scrapes that are kept in flight (the target does not answer until released)
-	holdGate  chan struct{}
-	holdSet   map[uint64]bool
-	holdArr   chan uint64
-	holdWait  sync.WaitGroup
-	holdN     int
-	tokSeq    int64
-	tokSeen   map[string]bool // request tokens the target farm has seen
-	InFlight  int // scrapes that were in flight while a cycle ran
-	Refused   int // scrapes the proxy answered without asking the target
-	StopCheck []string
+	holdGate    chan struct{}
+	holdSet     map[uint64]bool
+	holdArr     chan uint64
+	holdWait    sync.WaitGroup
+	holdN       int
+	tokSeq      int64
+	tokSeen     map[string]bool // request tokens the target farm has seen
+	InFlight    int             // scrapes that were in flight while a cycle ran
+	Refused     int             // scrapes the proxy answered without asking the target
+	FailedPosts int             // target / extra-config updates answered with an injected error
+	StopCheck   []string
 }
 
 // promTarget is one target the shard's (simulated) Prometheus scrapes, as listed in the generated file.
@@ -519,12 +520,21 @@ func (w *World) apiPost(ord int) func(string, interface{}, interface{}) error {
 		if strings.Contains(u, "/api/v1/status/config") && sc.RejectCfg > 0 {
 			return fmt.Errorf("config rejected (injected)")
 		}
+		if strings.Contains(u, "/api/v1/status/extra_config") && sc.PostFail > 0 {
+			w.mu.Lock()
+			w.FailedPosts++
+			w.mu.Unlock()
+			return fmt.Errorf("status code is 503 (injected)")
+		}
 		if isTargets {
 			w.mu.Lock()
 			w.cur.Posts[ord] = append(w.cur.Posts[ord], summarizePost(body))
 			w.mu.Unlock()
 			if sc.PostFail > 0 {
 				// e.g. the shard's Prometheus refuses the reload that follows a target update
+				w.mu.Lock()
+				w.FailedPosts++
+				w.mu.Unlock()
 				return fmt.Errorf("status code is 503 (injected)")
 			}
 			if matchPost(sc.DropPost, sc, body) {
@@ -1117,13 +1127,15 @@ func (w *World) Cycle() *CycleRec {
 	}
 	rec := &CycleRec{N: len(w.Shards), Posts: map[int][]string{}, AllInSync: true}
 	for i, sc := range w.Shards {
-		if sc.Unready > 0 || sc.GetFail > 0 || sc.RejectCfg > 0 {
-			rec.AllInSync = false
+		if sc.Unready > 0 || sc.GetFail > 0 || sc.RejectCfg > 0 || sc.PostFail > 0 {
+			rec.AllInSync = false // (a shard whose updates fail is in sync, but what the coordinator places there does not arrive)
 			kind := "unready"
 			if sc.GetFail > 0 {
 				kind = "getFail"
 			} else if sc.RejectCfg > 0 {
 				kind = "outOfSync"
+			} else if sc.PostFail > 0 && sc.Unready == 0 {
+				kind = "postFail"
 			}
 			rec.TimedFaults = append(rec.TimedFaults, fmt.Sprintf("%s@%d", kind, i))
 		}
@@ -1236,6 +1248,11 @@ func (w *World) Do(a Action) {
 	case "postFail":
 		if a.Shard < len(w.Shards) {
 			w.Shards[a.Shard].PostFail = a.K
+		}
+	case "postFailAll":
+		// every shard answers updates with an error for K cycles (e.g. a rule file all Prometheus refuse to reload)
+		for _, sc := range w.Shards {
+			sc.PostFail = a.K
 		}
 	case "stop":
 		ci := *w.coordCfg
